@@ -156,7 +156,7 @@ let parse_ms_in (toks : string list) : mspec list =
                    | [a; b] -> m.body <- pat_bytes (int_of_string a) (int_of_string b)
                    | _ -> raise (Bad t))
                | "bx" -> m.body <- chars_of_hex v
-               | "ck" | "rb" | "eof" | "err" | "zr" | "stop" | "more" -> ()
+               | "ck" | "rb" | "eof" | "err" | "zr" | "stop" | "more" | "hold" -> ()
                | _ -> raise (Bad t))) toks;
   List.rev !msgs
 
@@ -239,9 +239,8 @@ let judge_ms (ins : string list) (outs : string list) : verdict =
            else if starts_with "NOTE=" t then note := after "NOTE=" t);
           sscan r end in
   sscan sec;
+  ignore sname;
   if starts_with "harness-error" !note then VDisagree (sname ^ ": " ^ !note) else
-  if !note <> "" then
-    VPropfail ("sink_delivery", Printf.sprintf "%s: %s (the subscriber was cut off before the end of the stream)" sname !note) else
   match !raw with
   | None -> VDisagree "no-RAW-in-observation"
   | Some raw ->
@@ -345,7 +344,51 @@ let judge_ms (ins : string list) (outs : string list) : verdict =
   worst (List.map judge_reader (split_readers !rest)) in
   (* every sink section is judged; a property failure outranks a disagreement *)
   let sname sec = (match sec with t :: _ -> after "SINK=" t | [] -> "?") in
-  worst (List.map (fun sec -> tagv "sink" (sname sec) (judge_section sec)) secs)
+  let note_of sec = (match List.find_opt (starts_with "NOTE=") sec with Some t -> after "NOTE=" t | None -> "") in
+  (* raw bytes and primary (held) reader observation of a section *)
+  let sec_obs sec =
+    let rec after_raw = function
+      | [] -> None
+      | t :: r -> if starts_with "RAW=" t then Some (chars_of_hex (after "RAW=" t), r) else after_raw r in
+    match after_raw sec with
+    | None -> None
+    | Some (raw, r) ->
+        (match split_readers r with
+         | (_, toks) :: _ -> (match parse_observed toks with Ok o -> Some (raw, o) | Error _ -> None)
+         | [] -> None) in
+  let first = List.hd secs in
+  if starts_with "harness-error" (note_of first) then VDisagree (note_of first) else
+  if note_of first <> "" then VOk false  (* no complete reference observation: undecided *) else
+  let ref_frames = match sec_obs first with Some (_, (fs, _)) -> fs | None -> [] in
+  (* what EACH other subscriber received: per (id, type) a gap-free run of the
+     complete stream's frames (it may have joined late or been cut off) *)
+  let judge_other sec : verdict =
+    let note = note_of sec in
+    if starts_with "harness-error" note then VDisagree note else
+    match sec_obs sec with
+    | None -> VDisagree "unusable-section"
+    | Some (raw, (got, fin)) ->
+        if not (c19_reader_ok (got, fin)) then VPropfail ("reader_never_panics", "on what a subscriber received") else
+        if not (c19_subscriber_ok ref_frames got) then
+          let holes = List.filter_map (fun f ->
+              match f with FData (id, mt, i, _, _) -> Some (hex_of_chars id ^ "/" ^ dec_of_n mt, int_of_n i) | _ -> None) got in
+          let rec gap prev = function
+            | [] -> "(not a data-index gap)"
+            | (k, i) :: r -> (match List.assoc_opt k prev with
+                | Some j when i <> j + 1 -> Printf.sprintf "message %s: data index %d follows %d" k i j
+                | _ -> gap ((k, i) :: List.remove_assoc k prev) r) in
+          VPropfail ("subscriber_gap",
+                     Printf.sprintf "received %d of %d frames, not a gap-free run per message; %s; note=%s"
+                       (List.length got) (List.length ref_frames) (gap [] holes) note)
+        else if String.length note >= 7 && (let rec has i = i + 7 <= String.length note && (String.sub note i 7 = "TIMEOUT" || has (i + 1)) in has 0) then
+          VDisagree ("subscriber neither finished nor was cut off: " ^ note)
+        else if note = "" then judge_section sec
+        else
+          let (mf, mfin) = dec_stream raw in
+          if not (fin_eq mfin fin) || not (frames_eq mf got) then VDisagree "reader-vs-model on what the subscriber received"
+          else VOk (List.length got >= 10) in
+  worst (tagv "sink" (sname first) (judge_section first)
+         :: List.map (fun sec -> tagv "sink" (sname sec) (judge_other sec)) (List.tl secs))
 
 let judge _name ins outs =
   match ins with
